@@ -450,3 +450,69 @@ def stride_cases():
         out.append(dict(dim="1D", config="shelf", height=h, k_s0=k, t_tot=n * dt, start=20, stop=-50, rate=rate,
                         holds=None, cnTemp=None, Frand=fr, frkind="mid", kind="stride>1", row_stride=211))
     return out
+
+
+# ---------------------------------------------------------------------------
+# 2D: the model of work package G (`SnowModel/Snowing2D.lean`, driver op `snowing2D`)
+# ---------------------------------------------------------------------------
+STATS_2D = ("T_nuc_min", "T_nuc_kin", "T_nuc_mean", "T_nuc_max", "t_nuc", "t_sol", "t_fr")
+
+
+def model_2d(drv, case, prog=None, Frand=None, out_stride=10 ** 6):
+    """one `_run_2D` call on the Lean model with all flags false (= the repaired code that /repo contains);
+    returns {"raise", "dt", "NtExp", "iCool", "iSol", "iSaveEnd", "n", "stats": {...}, "time", "shelf",
+    "rows", "temp", "ice"}"""
+    import snowing2dutil as s2
+
+    prog = prog or _program(case)
+    try:
+        S = make_snowing(case, prog)
+    except Exception as e:
+        return {"raise": core.exc_class(e), "stage": "init"}
+    c2 = {"K_shelf": case["k_s0"], "t_tot": prog["t_tot"], "start": prog["start"], "stop": prog["stop"],
+          "rate": prog["rate"], "holds": prog.get("holds"), "cn": prog.get("cnTemp"),
+          "Frand": Frand if Frand is not None else recorded_frand(0), "outStride": int(out_stride)}
+    m = s2.run_model(drv, c2, flags=s2.FLAGS_REPAIRED, const=dict(S.const))
+    if m.get("stats") is not None:
+        m["stats"] = dict(zip(STATS_2D, m["stats"]))
+    return m
+
+
+def compare_2d(case, run, m, arrays=True):
+    """real 2D run (one entry of obs["runs"]) against the 2D model"""
+    dis = []
+    if (run["raise"] or None) != (m.get("raise") or None):
+        return [f"2D exception: impl {run['raise']} vs model {m.get('raise')}"]
+    if run["raise"]:
+        return dis
+    snap = run["snap"]
+    res = snap["results"]
+    i_impl = int(round(res["t_nuc"] * 60.0 / m["dt"]))
+    if i_impl != m["iCool"]:
+        dis.append(f"2D nucleation step: impl {i_impl} vs model {m['iCool']}")
+        return dis
+    for k, v in m["stats"].items():
+        if not core.close(res[k], v):
+            dis.append(f"2D {k}: impl {res[k]!r} vs model {v!r}")
+    if not arrays:
+        return dis
+    for name in ("time", "shelfTemp", "temp", "iceMassFraction"):
+        if len(snap[name]) != m["n"]:
+            dis.append(f"2D len({name}): impl {len(snap[name])} vs model {m['n']}")
+    if dis:
+        return dis
+    for name, key in (("time", "time"), ("shelfTemp", "shelf")):
+        a, b = np.asarray(snap[name]), np.asarray(m[key])
+        bad = np.nonzero(np.abs(a - b) > 1e-9 * np.maximum(1.0, np.maximum(np.abs(a), np.abs(b))))[0]
+        if len(bad):
+            dis.append(f"2D {name}[{int(bad[0])}]: impl {a[bad[0]]!r} vs model {b[bad[0]]!r}")
+    for name, key in (("temp", "temp"), ("iceMassFraction", "ice")):
+        for row, j in zip(m[key], m["rows"]):
+            a, b = np.asarray(snap[name][j], float).ravel(), np.asarray(row, float)
+            if a.shape != b.shape:
+                dis.append(f"2D {name}[{j}] shape: impl {a.shape} vs model {b.shape}")
+                break
+            if not np.all(np.abs(a - b) <= 1e-9 * np.maximum(1.0, np.maximum(np.abs(a), np.abs(b)))):
+                dis.append(f"2D {name}[{j}]: impl vs model differ by {float(np.max(np.abs(a - b)))}")
+                break
+    return dis
